@@ -30,8 +30,9 @@ def run(prog, rep, tier):
     apply(rep, "G3", "`attribute ... value` decodes every attribute in the DIE it was read from", g, 1)
     import r_tables
     apply(rep, "X1", "location operations are reported with the operands DWARF 5 gives their opcode", r_tables.x1(prog), 150)
-    apply(rep, "F7", "signedness and domain of DW_AT_const_value follow the DIE's type chain; DW_AT_decl_file / DW_AT_call_file resolve the index stored in the attribute itself in the file table of the DIE's own unit (handle_at_dependent_value interpreted on abstract type graphs and on inlined-subroutine DIEs of two units)", r_dw.f7(prog, tier), 2)
+    apply(rep, "F7", "signedness and domain of DW_AT_const_value follow the DIE's type chain; DW_AT_decl_file / DW_AT_call_file resolve the index stored in the attribute itself in the file table of the DIE's own unit (handle_at_dependent_value interpreted on abstract type graphs and on inlined-subroutine DIEs of two units)", r_dw.f7(prog, tier), 3)
     apply(rep, "F8", "block-form constants of 1/2/4/8 bytes are decoded as the data form of that size (handle_encoding_block interpreted)", r_dw.f8(prog), 1)
     import r_pure as _rp
     apply(rep, "Q5", "libdw's sticky error indicator is never used to decide without being cleared first (CFG must-pass-through)", _rp.q5(prog), 2)
+    apply(rep, "F9", "a fixed-width datum decoded as signed is the two's-complement number of the form's own width, whether libdw hands it back zero- or sign-extended (fix_dwarf_formsdata interpreted with typed integers at every boundary value)", r_dw.f9(prog), 1)
     maybe_mutants("C07", rep, tier)
